@@ -24,7 +24,7 @@ RES = ["c01_fd_res_two_s", "c01_fd_res_not_o_gconst", "c01_fd_res_kind_p_sconst"
 
 
 # measured not to finish within 1500 s / 14 GB (out of memory): kept out of both tiers, stated in DESIGN.md 8.1
-HEAVY = {"c01_fd_1111", "c01_ld_0111", "c01_fd_unknown_constant"}
+HEAVY = {"c01_fd_1111", "c01_ld_0111", "c01_fd_unknown_constant", "c01_ld_res_two_o_gconst"}
 
 
 def spec(tier, cap_k=2, names=None):
@@ -68,9 +68,24 @@ def spec_matchers(tier):
     )
 
 
+# the FastDataset index-selection arms that the 2-operation quick set does not reach: swept with 1-operation histories
+QUICK_K1 = ["c01_fd_0010", "c01_fd_0011", "c01_fd_0100", "c01_fd_0111", "c01_fd_1001", "c01_fd_1011", "c01_fd_1100", "c01_fd_1101", "c01_fd_1110"]
+
+
+def spec_k1(tier):
+    sp = spec(tier, cap_k=1, names=QUICK_K1)
+    for h in sp.harnesses:
+        h.unwind = 4
+        h.note = "history of 1 symbolic insert/remove operation, then one pattern query (covers the remaining index-selection arms cheaply)"
+    sp.bounds = ["histories of 1 symbolic operation; the 9 FastDataset pattern shapes not in the 2-operation quick set (fd_1111 does not finish: out of memory)", "ordered-set model capacity 1; loop unwind 4"]
+    return sp
+
+
 def run(ctx):
     kprop.run(ctx, spec_matchers(ctx.tier))
     kprop.run(ctx, spec(ctx.tier))
+    if ctx.tier == "quick":
+        kprop.run(ctx, spec_k1(ctx.tier))
     if ctx.tier == "thorough":
         # deeper histories on the graph stores (3 operations, capacity 3)
         kprop.run(ctx, spec("thorough", cap_k=3, names=ALL_FG + ALL_LG + ["c01_fg_res_not_o_sconst", "c01_lg_res_not_s"]))
